@@ -160,21 +160,24 @@ PLANS["C01"] = {
     "level": "model_checking",
     "verus": ["u123", "u4"],
     "kani": {"quick": ["u5::is_operator_binary_all", "u4::unary_apply", "u4::flatop_apply", "u4::unary_append_after", "u4::unary_remove_latest", "u4::unary_append_iter",
-                       "u6::flat_perm_desc_3", "u6::flat_ltr_3", "u6::flat_last_3", "u6::deep_perm_desc_3", "u6::deep_ltr_3", "u6::deep_perm_desc_4", "u6::deep_ltr_4"],
+                       "u6::flat_perm_desc_3", "u6::flat_ltr_3", "u6::flat_last_3", "u6::deep_perm_desc_3", "u6::deep_ltr_3", "u6::deep_perm_desc_4", "u6::deep_ltr_4",
+                       "u6::attach_parse_3", "u6::attach_flatten_3"],
              "thorough": ["u5::is_operator_binary_all", "u4::unary_apply", "u4::flatop_apply", "u4::unary_append_after", "u4::unary_remove_latest", "u4::unary_append_iter",
-                          "u6::flat_perm_desc_3", "u6::flat_ltr_3", "u6::flat_last_3", "u6::deep_perm_desc_3", "u6::deep_ltr_3", "u6::deep_perm_desc_4", "u6::deep_ltr_4"]},
+                          "u6::flat_perm_desc_3", "u6::flat_ltr_3", "u6::flat_last_3", "u6::deep_perm_desc_3", "u6::deep_ltr_3", "u6::deep_perm_desc_4", "u6::deep_ltr_4",
+                       "u6::attach_parse_3", "u6::attach_flatten_3"]},
     "kani_timeout": {"quick": 900, "thorough": 3000},
     "kani_jobs": {"thorough": 6},
     "owns_unprefixed": True,
     "cex_map": PLANS["C14"]["cex_map"], "cex_native": PLANS["C14"]["cex_native"], "complete_cross_checks": PLANS["C14"]["complete_cross_checks"],
     "trusted_base": PLANS["C14"]["trusted_base"] + [A_CBMC, A_FMT, A_NOOVF,
-        "A-attach (read from flat.rs make_expression / flatten_vecs, not verified): the unary chain of a parenthesis group is attached to the right-most operator of minimal priority of that group"],
+        "A-attach, selection part now CHECKED (u6::attach_parse_3 / attach_flatten_3 on the two statements cut from flat.rs make_expression / flatten_vecs by gen_tables.py::gen_attach, 3 operators): the chosen operator is the right-most one of minimal priority of the group. Still assumed: that the chain is then appended to exactly that operator (the line after the cut statement), and that `depth` / flat_ops hold what the parser's surrounding code is supposed to put there"],
     "assumptions": [A_VERUS, A_CBMC, A_FMT, A_NOOVF],
-    "not_covered": ["tokenisation, depth-scaled priorities and WHICH operator a parenthesised unary function is attached to (make_expression)",
+    "not_covered": ["tokenisation, depth-scaled priorities, and everything in make_expression around the one statement that selects WHICH operator a parenthesised unary function is attached to (that statement is checked, bounded)",
                     "constant folding (C02)", "constants standing for their values (tokenizer)"],
     "bounds": {"quick": ["reduction kernel (Verus): unbounded", "unary composition UnaryOp::apply / remove_latest / FlatOp::apply (Verus unit u4): unbounded, all chain lengths",
                          "sign rule: complete finite domain", "append_after / append_after_iter: small concrete chains (Kani) + long chains (sampled native probe)",
-                         "application order: flat form 3 operators, deep form 3 and 4 operators (4: base priorities 0..=3), from a symbolic 3-entry table, priorities 0..=99, depth 0..=2"],
+                         "application order: flat form 3 operators, deep form 3 and 4 operators (4: base priorities 0..=3), from a symbolic 3-entry table, priorities 0..=99, depth 0..=2",
+                         "unary attachment sites (statement slices of make_expression / flatten_vecs): 3 operators, same table, closing depth 0..=2"],
                "thorough": ["as quick (the flat order function with 4 operators exceeds 28 GB in CBMC's symbolic execution since the repair of the regrouping rule and is not part of any tier); sampled native probes as in quick"]},
     "explanation": "Partial: decided are (a) the reduction of an operand array under a given order (Verus, all sizes), (b) the order function (bounded), (c) unary composition (bounded), (d) the unary/binary role of signs (complete).",
 }
@@ -183,8 +186,14 @@ PLANS["C01"]["cex_map"] = dict(PLANS["C14"]["cex_map"], **{"unaryop_apply": ["u4
 PLANS["C01"]["trusted_base"] = PLANS["C01"]["trusted_base"] + [
     "unit u4: opaque stand-ins UnaryFuncWithIdx<T> / BinOpWithIdx<T> whose `apply` is an uninterpreted deterministic function (the real bodies are one-line calls through a fn pointer); one external_body delegation `UnaryOp::apply { unaryop_apply(self, x) }` (Verus quirk, R5) carrying the same contract text as the hoisted function",
 ]
-PLANS["C01"]["native_probes"] = {t: [("u6::flat_perm_desc_40", 30000), ("u6::flat_ltr_40", 30000), ("u6::deep_ltr_40", 30000), ("u4::unary_append_big", 30000)] for t in ("quick", "thorough")}
+PLANS["C01"]["native_probes"] = {t: [("u6::flat_perm_desc_40", 30000), ("u6::flat_ltr_40", 30000), ("u6::deep_ltr_40", 30000), ("u6::attach_parse_40", 30000), ("u6::attach_flatten_40", 30000), ("u4::unary_append_big", 30000)] for t in ("quick", "thorough")}
 PLANS["C01"]["bounds"]["quick"].append("sampled native probes (not proofs): order functions with 40 operators, unary chains of 15..=20 functions, 30000 palette inputs each")
+PLANS["C01"]["native_exhaustive"] = {"quick": [("u6::flat_perm_desc_4", 1, 400000000), ("u6::flat_ltr_4", 1, 400000000), ("u6::attach_parse_4", 1, 400000000), ("u6::attach_flatten_4", 1, 400000000),
+                                               ("u6::attach_flatten_5", 1, 400000000)],
+                                     "thorough": [("u6::flat_perm_desc_4", 1, 400000000), ("u6::flat_ltr_4", 1, 400000000), ("u6::attach_parse_4", 1, 400000000), ("u6::attach_flatten_4", 1, 400000000),
+                                                  ("u6::attach_parse_5", 1, 400000000), ("u6::attach_flatten_5", 1, 400000000), ("u6::flat_ltr_5", 1, 400000000), ("u6::deep_ltr_5", 1, 400000000)]}
+PLANS["C01"]["bounds"]["quick"].append("exhaustive native enumeration (explicit runs of the same contract bodies on the real code; bounded stand-in, not a proof): flat order function with 4 operators (the size CBMC cannot finish), attachment statements with 4 and 5 operators; 3-entry table with base priorities 0..=3, depth 0..=2, all flags and operand kinds")
+PLANS["C01"]["bounds"]["thorough"].append("exhaustive native enumeration: additionally flat and deep order functions (left-to-right obligation) and the parser attachment statement with 5 operators (1.9 billion runs each for the order functions)")
 PLANS["C13"] = {
     "level": "model_checking",
     "kani": {"quick": ["u5::is_operator_binary_all", "u5::numeric_text_4"], "thorough": ["u5::is_operator_binary_all", "u5::numeric_text_4", "u5::numeric_text_6"]},
@@ -213,14 +222,16 @@ PLANS["C07"] = {
     "level": "model_checking",
     "kani": {"quick": ["c07::preconditions_len_0", "c07::preconditions_len_1", "c07::preconditions_len_2"] + C07_LEN3,
              "thorough": ["c07::preconditions_len_0", "c07::preconditions_len_1", "c07::preconditions_len_2"] + C07_LEN3},
-    "native_probes": {"quick": [("c07::preconditions_len_3", 100000), ("c07::preconditions_len_8", 300000)],
-                      "thorough": [("c07::preconditions_len_3", 1000000), ("c07::preconditions_len_8", 3000000)]},
+    # exhaustive native enumeration: (harness, payload radix, max runs per shard)
+    "native_exhaustive": {"quick": [("c07::preconditions_len_%d" % n, 1, 400000000) for n in range(3, 10)] + [("c07::paren_walk_%d" % n, 1, 400000000) for n in (10, 12, 14, 16)],
+                          "thorough": [("c07::preconditions_len_%d" % n, 1, 400000000) for n in range(3, 11)] + [("c07::paren_walk_%d" % n, 1, 400000000) for n in (10, 12, 14, 16)]},
     "kani_timeout": {"quick": 900, "thorough": 3000},
     "owns_unprefixed": True,
     "trusted_base": [A_CBMC, A_FMT, A_NOOVF], "assumptions": [A_CBMC, A_FMT, A_NOOVF],
-    "not_covered": ["operand/operator count check (make_expression, DeepEx::new)", "unknown-character rejection (tokenizer)", "token sequences longer than the bound"],
-    "bounds": {"quick": ["all token sequences of length 0, 1, 2 and 3 over 7 token kinds (length 3: 38 of the 49 two-token prefixes, each with a symbolic third token; the 11 prefixes with a legally placed operator in the middle do not finish in 15 min and are only sampled natively)", "sampled native probe (not a proof): 300000 random sequences of 8 tokens"],
-               "thorough": ["as quick (length 4 was tried: most of the 343 harnesses with three fixed kinds take 3-19 s, a few do not finish in 10 min); the sampled probe runs 3000000 sequences"]},
+    "not_covered": ["operand/operator count check (make_expression, DeepEx::new)", "unknown-character rejection (tokenizer)", "token sequences longer than the bounds"],
+    "bounds": {"quick": ["Kani (symbolic token kinds and payloads): all token sequences of length 0, 1, 2 and 3 over 7 token kinds (length 3: 38 of the 49 two-token prefixes, each with a symbolic third token; the 11 prefixes with a legally placed operator in the middle do not finish in 15 min)",
+                         "exhaustive native enumeration (explicit runs of the same contract body on the real code; bounded stand-in, not a proof): EVERY sequence of 3..=9 tokens over the 7 token kinds (number payload fixed), and every pair-valid sequence of 10, 12, 14 and 16 tokens over {number, (, ), binary operator} for the parenthesis walk / trailing-operator rule"],
+               "thorough": ["as quick, plus every sequence of 10 tokens over the 7 kinds (282 million runs). Kani length 4 was tried: most of the 343 harnesses with three fixed kinds take 3-19 s, a few do not finish in 10 min"]},
     "explanation": "Partial, bounded: check_parsed_token_preconditions rejects exactly the documented malformed shapes for every short token sequence.",
 }
 PLANS["C15"] = {
@@ -236,8 +247,14 @@ PLANS["C15"] = {
                "thorough": ["as quick, plus the concrete 4-node shapes y x y x and x L y x (3 nodes with a symbolic shape exhaust 28 GB, the shape x x x does not finish in 15 min: neither is part of a tier)"]},
     "explanation": "Bounded: eval_flatex_consuming_vars agrees with eval_flatex_cloning and with an independent reference reduction; no moved-out value reaches an operator; single-occurrence variables are not cloned.",
 }
-PLANS["C15"]["native_probes"] = {t: [("c15::consuming_vs_cloning_5", 50000), ("c15::consuming_vs_cloning_36", 20000)] for t in ("quick", "thorough")}
-PLANS["C15"]["bounds"]["quick"].append("sampled native probes (not proofs): 5 nodes (50000 palette inputs) and 36 nodes (20000 palette inputs)")
+PLANS["C15"]["native_probes"] = {t: [("c15::consuming_vs_cloning_36", 20000)] for t in ("quick", "thorough")}
+PLANS["C15"]["native_exhaustive"] = {"quick": [("c15::consuming_vs_cloning_3", 3, 400000000), ("c15::consuming_vs_cloning_4", 3, 400000000), ("c15::consuming_vs_cloning_5", 2, 400000000)],
+                                     "thorough": [("c15::consuming_vs_cloning_3", 3, 400000000), ("c15::consuming_vs_cloning_4", 3, 400000000), ("c15::consuming_vs_cloning_5", 3, 400000000),
+                                                  ("c15::consuming_vs_cloning_6", 1, 400000000)]}
+PLANS["C15"]["bounds"]["quick"].append("exhaustive native enumeration (explicit runs of the same contract body on the real code; bounded stand-in, not a proof): every shape, unary flag and application order with 3, 4 and 5 nodes, values from {0, 1, 2} (3, 4 nodes) / {0, 1} (5 nodes)")
+PLANS["C15"]["bounds"]["thorough"].append("exhaustive native enumeration: 3, 4, 5 nodes with values from {0, 1, 2}; 6 nodes with all values equal (moved-flag and clone-count obligations only)")
+PLANS["C15"]["bounds"]["quick"].append("sampled native probe (not a proof): 36 nodes (20000 palette inputs)")
+PLANS["C15"]["not_covered"] = ["entry points eval_vec / eval_iter (arity guards, collection of the iterator)", "expressions with more than 6 nodes (only sampled) or more than 2 variables", "unary chains longer than 1"]
 PLANS["C04"] = {
     "level": "model_checking",
     "kani": {"quick": ["c04::arity_eval", "c04::arity_eval_relaxed", "c04::arity_eval_vec_1", "c04::arity_eval_vec_3", "c04::arity_eval_iter_1", "c04::arity_eval_iter_3"],
@@ -268,7 +285,9 @@ KANI_TARGETS = {
             ("src/operators.rs", r"^    pub fn remove_latest\(", "u4::unary_remove_latest"),
             ("src/expression/flat.rs", r"^    impl<T: Clone> OperateBinary<T> for FlatOp<T>", "u4::flatop_apply"),
             ("src/expression/flat.rs", r"^    pub\(super\) fn prioritized_indices_flat<", "u6::flat_* (bounded: 3 / 4 operators)"),
-            ("src/expression/deep.rs", r"^pub fn prioritized_indices<", "u6::deep_* (bounded: 3 / 4 operators)")],
+            ("src/expression/deep.rs", r"^pub fn prioritized_indices<", "u6::deep_* (bounded: 3 / 4 operators)"),
+            ("src/expression/flat.rs", r"^    pub\(super\) fn make_expression<", "ONE statement only (`let lowest_prio_flat_op = ...;`, cut as text): u6::attach_parse_3 (bounded: 3 operators)"),
+            ("src/expression/flat.rs", r"^pub fn flatten_vecs<", "ONE statement only (`let low_prio_op = match ...;`, cut as text): u6::attach_flatten_3 (bounded: 3 operators)")],
     "C13": [("src/parser.rs", r"^pub fn is_operator_binary<", "u5::is_operator_binary_all (complete)"),
             ("src/parser.rs", r"^pub fn is_numeric_text\(", "u5::numeric_text_* (ASCII strings up to the bound)")],
     "C09": [("src/expression/partial.rs", r"^pub fn check_partial_index\(", "u5::partial_index (complete)")],
@@ -291,5 +310,9 @@ KANI_TARGETS = {
 
 PLANS["C04"]["native_probes"] = {"quick": [("c04::var_lookup_probe", 200000)], "thorough": [("c04::var_lookup_probe", 2000000)]}
 PLANS["C04"]["bounds"]["quick"].append("sampled native probe (not a proof): find_parsed_vars / find_var_index on 200000 random token lists over 12 tricky names")
-PLANS["C04"]["not_covered"] = [x for x in PLANS["C04"]["not_covered"] if not x.startswith("find_parsed_vars")] + ["find_parsed_vars / find_var_index are only sampled natively (CBMC needs > 5 GB on one concrete token shape)"]
+PLANS["C04"]["native_exhaustive"] = {"quick": [("c04::var_lookup_3", 1, 400000000), ("c04::var_lookup_5", 1, 400000000), ("c04::var_lookup_6", 1, 400000000)],
+                                     "thorough": [("c04::var_lookup_3", 1, 400000000), ("c04::var_lookup_5", 1, 400000000), ("c04::var_lookup_6", 1, 400000000), ("c04::var_lookup_7", 1, 400000000)]}
+PLANS["C04"]["bounds"]["quick"].append("exhaustive native enumeration (explicit runs on the real code; bounded stand-in, not a proof): find_parsed_vars / find_var_index on EVERY list of 3, 5 and 6 tokens over 12 tricky names + number")
+PLANS["C04"]["bounds"]["thorough"].append("exhaustive native enumeration: additionally every list of 7 tokens (62.7 million)")
+PLANS["C04"]["not_covered"] = [x for x in PLANS["C04"]["not_covered"] if not x.startswith("find_parsed_vars")] + ["find_parsed_vars / find_var_index are not under a Kani contract (CBMC needs > 5 GB on one concrete token shape): enumerated exhaustively for short lists and sampled for longer ones, natively"]
 
